@@ -67,6 +67,9 @@ def plans_from_tlc(run):
     # kills right after an interior 0x2e byte of the payload (the same byte ends every pickle: a truncated file can look finished)
     for j in (1, 2, 3):
         plans[json.dumps(["afterbyte", 46, j])] = ["afterbyte", 46, j]
+    # the writer dies by an exception raised while storing (a failing write, an interrupt) after part of the payload
+    for k_, exc_ in ((0, "OSError"), (1, "OSError"), (2, "KeyboardInterrupt"), (1, "KeyboardInterrupt")):
+        plans[json.dumps(["raise", k_, 3, exc_])] = ["raise", k_, 3, exc_]
     plans[json.dumps(["before", "close"])] = ["before", "close"]
     return list(plans.values())
 
@@ -222,7 +225,8 @@ def run(run):
         for k in range(0, 400):
             jobs.append((["offset", k], k % 2 == 0, "new" if k % 3 else "overwrite"))
     if quick:
-        keep = [j for j in jobs if j[2] == "overwrite" and j[1]] + rng.sample([j for j in jobs if not (j[2] == "overwrite" and j[1])], 10)
+        keep = [j for j in jobs if j[2] == "overwrite" and j[1]] + rng.sample([j for j in jobs if not (j[2] == "overwrite" and j[1])], 10) \
+            + [j for j in jobs if j[0][0] == "raise" and j[2] == "new" and not j[1]]
         jobs = keep
     with ThreadPoolExecutor(10) as ex:
         outs = list(ex.map(lambda j: crash_case(*j), jobs))
